@@ -6,16 +6,20 @@ import parsergen as G
 MODEL = "C01"
 MODEL_ENTRY = "run_C01S"        # the driver's entry for C01 (Model/Spell.v): the parse and, next to it, the line description's verdicts
 PROP_FILES = ["Props/C01.v"]
-RULE = ("(format, assignment, spelling): for small formats (<= 2 options, <= 2 arguments, <= 1 command name) every interleaving of "
-        "the option items among the positionals x every form ('--n=v', '--n v', '-nv', '-n v', bare flags, adjacent flags grouped, "
-        "last group member valued) x every '--' placement x given/omitted command names spelled by name or alias, strict and "
-        "lenient; seeded random for larger formats (up to 5 options / 4 arguments / 2 command names, base formats). The expected "
-        "Args observation is computed from the assignment alone. Non-trivial = >= 1 option item and >= 1 positional; distinct by "
-        "(format, mode, tokens)")
+RULE = ("(format, assignment, spelling): formats = 40 fixed ones + formats drawn from the seed over the quantifier's domain (0-5 "
+        "options over value mode x type x nullable x short name x default none/truthy/falsy/other-typed, 0-4 arguments required/"
+        "optional/multi-valued x type x nullable x default, 0-2 command names with 0-2 aliases, 0-2 base levels). For small formats "
+        "(<= 2 options, <= 2 arguments, <= 1 command name) every interleaving of the option items among the positionals x every "
+        "form ('--n=v', '--n v', '-nv', '-n v', bare flags) x every way of writing adjacent short options as one group x every "
+        "'--' placement x given/omitted command names spelled by name or alias, strict and lenient (capped per assignment); "
+        "seeded random spellings for larger formats, a third of them built around a group of short flags of any length with or "
+        "without a valued last member. The expected Args observation is computed from the assignment alone. Non-trivial = "
+        ">= 1 option item and >= 1 positional; distinct by (format, mode, tokens)")
 TRUSTED = ["the expected observation is computed by an independent Python function from the assignment (oracle)"]
-ASSUMPTIONS = ["lines satisfy the side conditions of DESIGN.md C01 (separated values and pre-'--' positionals do not start with '-' and are "
-               "not empty, an omitted optional value is not followed by a positional, an omitted command name is not followed by a "
-               "positional equal to it, single-valued options occur once)"]
+ASSUMPTIONS = ["lines satisfy the side conditions of wf_line (Model/Spell.v): separated values do not start with '-' and are not empty, "
+               "pre-'--' positionals do not start with '-' (except '-' itself; the empty token is allowed), an omitted optional value "
+               "is not followed by a positional other than '-', an omitted command name is not followed by a positional equal to it; "
+               "single-valued options occur once; negative argument positions are not probed (outside the model)"]
 
 EXTRA = ["zz"]
 
@@ -200,23 +204,109 @@ def interleavings(n_opt_items, n_pos):
     return out
 
 
-def spell_all(levels, asg, rng=None, limit=None):
-    """token lists spelling asg: all of them when there are at most `limit`, else a uniform random sample"""
+def n_orders(items):
+    """number of orders of the option items that keep the occurrences of one option in their own order"""
+    import math
+    cnt = {}
+    for o, _ in items:
+        cnt[o["long"]] = cnt.get(o["long"], 0) + 1
+    n = math.factorial(len(items))
+    for k in cnt.values():
+        n //= math.factorial(k)
+    return n
+
+
+def fix_order(perm, items):
+    """occurrences of the same option appear in index order (multi-values are listed in command-line order)"""
+    by = {}
+    for q, i in enumerate(perm):
+        by.setdefault(items[i][0]["long"], []).append(q)
+    perm = list(perm)
+    for qs in by.values():
+        for q, v in zip(qs, sorted(perm[q] for q in qs)):
+            perm[q] = v
+    return perm
+
+
+def is_short_flag(e):
+    return e[0] == "o" and e[2][0] == 0 and e[2][2] == 0
+
+
+def is_short_last(e):
+    """an option occurrence written with its short name that may close a group: -f, -m (value omitted), -oTEXT, -o TEXT"""
+    return e[0] == "o" and ((e[2][0] in (0, 2) and e[2][2] == 0) or (e[2][0] == 1 and e[2][2] in (2, 3)))
+
+
+def merge_group(seg):
+    """one entry for the adjacent short-form entries seg = flags ... flags [last]: '-abc', '-abcTEXT', '-abc TEXT'"""
+    flags, last = seg[:-1], seg[-1]
+    letters = "".join(e[3]["short"] for e in flags)
+    fl = [e[2][1] for e in flags]
+    ls = last[3]["short"]
+    d = last[2]
+    if d[0] == 0:
+        return ("o", ["-" + letters + ls], [3, fl + [d[1]], []], None)
+    if d[0] == 2:
+        return ("o", ["-" + letters + ls], [3, fl, [d[1], [2]]], None)
+    if d[2] == 2:
+        return ("o", ["-" + letters + ls + unS(d[3])], [3, fl, [d[1], [0, d[3]]]], None)
+    return ("o", ["-" + letters + ls, unS(d[3])], [3, fl, [d[1], [1, d[3]]]], None)
+
+
+def group_segments(entries):
+    """all (a, b), b > a: entries[a..b-1] are short flags and entries[b] may close the group"""
+    out = []
+    for a in range(len(entries)):
+        if not is_short_flag(entries[a]):
+            continue
+        b = a
+        while b + 1 < len(entries) and is_short_flag(entries[b]) and is_short_last(entries[b + 1]):
+            b += 1
+            out.append((a, b))
+    return out
+
+
+def grouped(entries, seg):
+    a, b = seg
+    return entries[:a] + [merge_group(entries[a:b + 1])] + entries[b + 1:]
+
+
+def finish(entries):
+    """entries -> (tokens, line description of Model/Spell.v or None).  The description exists when the command-name
+    spellings come first (no option in front of one, none after '--')."""
+    toks, names, d_items, d_tail, d_ok = [], [], [], None, True
+    seen_other = False
+    for e in entries:
+        if e[0] == "n":
+            toks.append(e[1])
+            names.append(S(e[1]))
+            if seen_other:
+                d_ok = False
+        elif e[0] == "dd":
+            toks.append("--")
+            d_tail = []
+            seen_other = True
+        elif e[0] == "p":
+            toks.append(e[1])
+            seen_other = True
+            if d_tail is not None:
+                d_tail.append(S(e[1]))
+            else:
+                d_items.append([4, S(e[1])])
+        else:
+            toks.extend(e[1])
+            d_items.append(e[2])
+            seen_other = True
+    return toks, ([names, d_items, [] if d_tail is None else [d_tail]] if d_ok else None)
+
+
+def spell_all(levels, asg, rng=None, limit=None, group_bias=0.0):
+    """entry lists spelling asg: all of them when there are at most `limit`, else a random sample (with probability
+    group_bias a line is built so that the short-named flags stand next to each other, a short-named valued option behind them)"""
     cns = G.fmt_cnames(levels)
     items = option_items(levels, asg)
     pos = list(asg["args"])
     idx = list(range(len(items)))
-    orders = []
-    for perm in itertools.permutations(idx):
-        ok, last = True, {}
-        for i in perm:
-            key = items[i][0]["long"]
-            if key in last and last[key] > i:
-                ok = False
-                break
-            last[key] = i
-        if ok:
-            orders.append(perm)
     cn_choices = []
     for k in range(len(cns), -1, -1):
         for names in itertools.product(*[[c["name"]] + c["aliases"] for c in cns[:k]]):
@@ -232,56 +322,47 @@ def spell_all(levels, asg, rng=None, limit=None):
         k = len(names)
         if k < len(cns) and pos:
             c = cns[k]
-            if pos[0] == c["name"] or pos[0] in c["aliases"]:
+            if pos[0] != "" and (pos[0] == c["name"] or pos[0] in c["aliases"]):
                 return None
-        toks, oi, pi = [], 0, 0
-        # the line description (Model/Spell.v): representable when the command names come first
-        d_items, d_tail, d_ok = [], None, True
+        entries, oi, pi = [], 0, 0
         for i, m in enumerate(marks):
             if dd is not None and i == dd:
-                toks.append("--")
-                d_tail = []
+                entries.append(("dd",))
             if m == "o":
                 it = perm[oi]
                 o, t = items[it]
                 oi += 1
-                toks.extend(fsel[it][0])
-                d_items.append(fsel[it][1])
-                if pi < k:
-                    d_ok = False          # an option in front of a command name
+                entries.append(("o", fsel[it][0], fsel[it][1], o))
                 if t == "BARE":
+                    # an omitted optional value must not be followed by a positional (it would be taken as the value)
                     if i + 1 < len(marks) and marks[i + 1] == "p" and not (dd is not None and dd == i + 1):
-                        return None
+                        if pos_all[pi] != "-":
+                            return None
             else:
                 v = pos_all[pi]
-                if (dd is None or i < dd) and (v == "" or (v.startswith("-") and v != "-")):
+                if (dd is None or i < dd) and v.startswith("-") and v != "-":
                     return None
-                toks.append(v)
-                if pi < k:
-                    if d_tail is not None:
-                        d_ok = False      # a command name after "--"
-                elif d_tail is not None:
-                    d_tail.append(S(v))
-                else:
-                    d_items.append([4, S(v)])
+                if pi < k and v == "":
+                    return None
+                entries.append(("n" if pi < k else "p", v))
                 pi += 1
         if dd is not None and dd == len(marks):
-            toks.append("--")
-            d_tail = []
-        desc = [[S(n) for n in names], d_items, [] if d_tail is None else [d_tail]] if d_ok else None
-        return toks, desc
+            entries.append(("dd",))
+        return entries
 
     space = []
     for names in cn_choices:
         n_marks = len(items) + len(names) + len(pos)
-        mk = interleavings(len(items), len(names) + len(pos))
-        space.append((names, mk, n_marks))
+        space.append((names, n_marks))
     nforms = 1
     for f in item_forms:
         nforms *= len(f)
-    total = sum(len(orders) * len(mk) * nforms * (n + 2) for (_, mk, n) in space)
+    import math
+    total = sum(n_orders(items) * math.comb(n, len(items)) * nforms * (n + 2) for (_, n) in space)
     if limit is None or total <= limit or rng is None:
-        for names, mk, n in space:
+        orders = [p for p in itertools.permutations(idx) if list(p) == fix_order(p, items)]
+        for names, n in space:
+            mk = interleavings(len(items), n - len(items))
             for perm in orders:
                 for marks in mk:
                     for fsel in itertools.product(*item_forms):
@@ -289,19 +370,60 @@ def spell_all(levels, asg, rng=None, limit=None):
                             t = build(names, perm, marks, fsel, dd)
                             if t is not None:
                                 results.append(t)
-    else:
-        tries = 0
-        while len(results) < limit and tries < limit * 6:
-            tries += 1
-            names, mk, n = rng.choice(space)
-            t = build(names, rng.choice(orders), rng.choice(mk), [rng.choice(f) for f in item_forms], rng.choice([None] + list(range(n + 1))))
-            if t is not None:
-                results.append(t)
+        return results
+    # short-named flags / short-named valued occurrences: candidates for a group
+    sflags = [i for i in idx if items[i][0]["short"] and items[i][1] is None]
+    svalued = [i for i in idx if items[i][0]["short"] and items[i][1] is not None]
+    tries = 0
+    while len(results) < limit and tries < limit * 6:
+        tries += 1
+        names, n = rng.choice(space)
+        npos = n - len(items)
+        fsel = [rng.choice(f) for f in item_forms]
+        if len(sflags) >= 1 and len(sflags) + min(1, len(svalued)) >= 2 and rng.random() < group_bias:
+            block = rng.sample(sflags, rng.randint(1, len(sflags)))
+            if svalued and (len(block) < 2 or rng.random() < 0.7):
+                block.append(rng.choice(svalued))
+            rest = [i for i in idx if i not in block]
+            rng.shuffle(rest)
+            units = [[i] for i in rest]
+            units.insert(rng.randint(0, len(units)), block)
+            perm = fix_order([i for u in units for i in u], items)
+            for i in block:                                  # short forms for the members of the block
+                sf = [f for f in item_forms[i] if is_short_last(("o", f[0], f[1]))]
+                fsel[i] = rng.choice(sf)
+            slots = sorted(rng.randint(0, len(units)) for _ in range(npos))   # positionals between the units
+            marks = []
+            for ui, u in enumerate(units):
+                marks += ["p"] * slots.count(ui) + ["o"] * len(u)
+            marks += ["p"] * slots.count(len(units))
+        else:
+            perm = idx[:]
+            rng.shuffle(perm)
+            perm = fix_order(perm, items)
+            where = set(rng.sample(range(n), len(items)))
+            marks = ["o" if i in where else "p" for i in range(n)]
+        t = build(names, perm, marks, fsel, rng.choice([None, None] + list(range(n + 1))))
+        if t is not None:
+            results.append(t)
     return results
 
 
+def variants(entries, rng=None, max_groups=None):
+    """the line itself and the same line with adjacent short options written as one group (every contiguous choice, or a
+    sample of max_groups of them, the longest always among them): (tokens, description) pairs"""
+    out = [finish(entries)]
+    segs = group_segments(entries)
+    if max_groups is not None and len(segs) > max_groups:
+        longest = max(segs, key=lambda s: s[1] - s[0])
+        segs = [longest] + rng.sample([s for s in segs if s != longest], max_groups - 1)
+    for seg in segs:
+        out.append(finish(grouped(entries, seg)))
+    return out
+
+
 def group_flags(toks, levels, desc=None):
-    """merge two adjacent single-letter flag tokens '-a' '-b' into '-ab' (one variant); -> (tokens, description) or None"""
+    """(kept for other callers) merge the first two adjacent short option tokens '-a' '-b...' into '-ab...'"""
     shorts = {o["short"]: o for o in G.fmt_options(levels) if o["short"]}
     for i in range(len(toks) - 1):
         a, b = toks[i], toks[i + 1]
@@ -309,62 +431,42 @@ def group_flags(toks, levels, desc=None):
            len(b) >= 2 and b[0] == "-" and b[1] != "-" and b[1] in shorts:
             if "--" in toks[:i + 1]:
                 break
-            return toks[:i] + ["-" + a[1] + b[1:]] + toks[i + 2:], group_desc(desc, levels)
-    return None
-
-
-def group_desc(desc, levels):
-    """the same merge on the line description: the first short flag item followed by a short-form item"""
-    if desc is None:
-        return None
-    names, items, tail = desc
-    longs = {o["long"]: o for o in G.fmt_options(levels)}
-    for i in range(len(items) - 1):
-        x, y = items[i], items[i + 1]
-        if x[0] == 0 and x[2] == 0 and okind(longs[unS(x[1])]) == "flag":
-            if y[0] == 0 and y[2] == 0:
-                g = [3, [x[1], y[1]], []]
-            elif y[0] == 2 and y[2] == 0:
-                g = [3, [x[1]], [y[1], [2]]]
-            elif y[0] == 1 and y[2] == 2:
-                g = [3, [x[1]], [y[1], [0, y[3]]]]
-            elif y[0] == 1 and y[2] == 3:
-                g = [3, [x[1]], [y[1], [1, y[3]]]]
-            else:
-                continue
-            return [names, items[:i] + [g] + items[i + 2:], tail]
+            return toks[:i] + ["-" + a[1] + b[1:]] + toks[i + 2:], None
     return None
 
 
 # ---------------------------------------------------------------- assignments
 def value_texts(kind_type, nullable, rng, where):
-    pool = {"str": ["val", "a=b", "é", "x y", "-", "7"], "int": ["5", "0", "12"], "float": ["1.5", "2", "1e3"],
-            "bool": ["true", "0", "no", "on"]}[kind_type]
+    pool = {"str": ["val", "a=b", "é", "x y", "-", "7", "oVAL"], "int": ["5", "0", "12"], "float": ["1.5", "2", "1e3", "0.0"],
+            "bool": ["true", "0", "no", "on", "false", "1", "yes", "off"]}[kind_type]
     if nullable:
         pool = pool + ["null"]
     if where == "eq":
-        pool = pool + {"str": ["-x", "--y", "--"], "int": ["-3"], "float": ["-0.5"], "bool": []}[kind_type]
+        pool = pool + {"str": ["-x", "--y", "--", "=", "a=b=c"], "int": ["-3"], "float": ["-0.5"], "bool": []}[kind_type]
+    if where == "pos":
+        pool = pool + {"str": [""], "int": [], "float": [], "bool": [""]}[kind_type]
     if where == "tail":
-        pool = pool + {"str": ["-x", "--y", "--", "", "--opt=1"], "int": ["-3"], "float": ["-0.5"], "bool": []}[kind_type]
+        pool = pool + {"str": ["-x", "--y", "--", "", "--opt=1"], "int": ["-3"], "float": ["-0.5"], "bool": [""]}[kind_type]
     return pool
 
 
-def assignments(levels, rng, n):
+def assignments(levels, rng, n, max_multi=2):
     opts = G.fmt_options(levels)
     args = G.fmt_args(levels)
     out = []
     for _ in range(n):
         asg = {"opts": {}, "args": []}
+        p_skip = rng.choice([0.4, 0.4, 0.15, 0.7])
         for o in opts:
             r = rng.random()
-            if r < 0.4:
+            if r < p_skip:
                 continue
             k = okind(o)
             nl = bool(o["flags"] & G.O_NULL)
             if k == "flag":
                 asg["opts"][o["long"]] = True
             elif k == "multi":
-                asg["opts"][o["long"]] = [rng.choice(value_texts(otype(o), nl, rng, rng.choice(["sep", "sep", "eq"]))) for _ in range(rng.randint(1, 2))]
+                asg["opts"][o["long"]] = [rng.choice(value_texts(otype(o), nl, rng, rng.choice(["sep", "sep", "eq"]))) for _ in range(rng.randint(1, max_multi))]
             elif k == "opt" and rng.random() < 0.4:
                 try:
                     conv_default(o)
@@ -384,7 +486,7 @@ def assignments(levels, rng, n):
             if a is None:
                 break
             nl = bool(a["flags"] & G.A_NULL)
-            vals.append(rng.choice(value_texts(atype(a), nl, rng, "tail" if tail_mode and i >= tail_from else "sep")))
+            vals.append(rng.choice(value_texts(atype(a), nl, rng, "tail" if tail_mode and i >= tail_from else rng.choice(["sep", "sep", "sep", "pos"]))))
             if not (a["flags"] & G.A_MULTI):
                 ai += 1
                 if ai >= len(args):
@@ -394,45 +496,74 @@ def assignments(levels, rng, n):
     return out
 
 
-SMALL = [i for i, lv in enumerate(G.SMALL_FORMATS)
-         if len(G.fmt_options(lv)) <= 2 and len(G.fmt_args(lv)) <= 2 and len(G.fmt_cnames(lv)) <= 1]
+def is_small(lv):
+    return len(G.fmt_options(lv)) <= 2 and len(G.fmt_args(lv)) <= 2 and len(G.fmt_cnames(lv)) <= 1
+
+
+SMALL = [i for i, lv in enumerate(G.SMALL_FORMATS) if is_small(lv)]
 LARGE = [i for i in range(len(G.SMALL_FORMATS)) if i not in SMALL]
+
+
+def random_formats(rng, tier):
+    """formats drawn from the quantifier's domain: (small ones, larger ones).  Half of the larger ones are made to hold two or
+    three short-named flags and a short-named valued option, so that groups of every length can be written."""
+    n_small, n_large = {"quick": (16, 36), "thorough": (120, 300), "search": (4, 10)}[tier]
+    small, large = [], []
+    guard = 0
+    while len(small) < n_small and guard < 10000:
+        guard += 1
+        lv = G.rand_levels(rng, nopts=rng.randint(0, 2), nargs=rng.randint(0, 2), ncn=rng.choice([0, 0, 1]),
+                           short_flags=rng.choice([0, 0, 1, 2]))
+        if is_small(lv):
+            small.append(lv)
+    while len(large) < n_large:
+        i = len(large)
+        lv = G.rand_levels(rng, nopts=rng.randint(3, 5) if i % 2 else None, nargs=4 if i % 6 == 5 else None,
+                           short_flags=(0, 2, 0, 3)[i % 4], short_valued=(0, 1, 0, 1)[i % 4])
+        if not is_small(lv):
+            large.append(lv)
+    return small, large
 
 
 def gen(rng, tier, info):
     n_asg = {"quick": 14, "thorough": 60, "search": 3}[tier]
-    cap = {"quick": 60000, "thorough": 600000, "search": 10000}[tier]
+    cap = {"quick": 80000, "thorough": 800000, "search": 12000}[tier]
     cases, seen = [], set()
     per_fmt = {}
     per_asg = {"quick": 500, "thorough": 4000, "search": 100}[tier]
-    for fi in SMALL:
-        levels = G.SMALL_FORMATS[fi]
-        for asg in assignments(levels, rng, n_asg):
-            for toks, desc in spell_all(levels, asg, rng, limit=per_asg):
-                variants = [(toks, desc)]
-                g = group_flags(toks, levels, desc)
-                if g:
-                    variants.append(g)
-                for t, dsc in variants:
+    r_small, r_large = random_formats(rng, tier)
+
+    def add(fkey, fref, t, dsc, lenient, asg):
+        key = (fkey, lenient, tuple(t))
+        if key in seen:
+            return False
+        seen.add(key)
+        c = {"len": lenient, "toks": t, "asg": asg, "ld": dsc}
+        c.update(fref)
+        cases.append(c)
+        return True
+
+    # small formats: every spelling (or per_asg of them), every way of grouping adjacent short options, both modes
+    small = [(fi, {"f": fi}, G.SMALL_FORMATS[fi], n_asg) for fi in SMALL] + \
+            [("r%d" % i, {"lv": lv}, lv, max(3, n_asg // 2)) for i, lv in enumerate(r_small)]
+    for fkey, fref, levels, na in small:
+        for asg in assignments(levels, rng, na):
+            for entries in spell_all(levels, asg, rng, limit=per_asg if isinstance(fkey, int) else per_asg // 2):
+                for t, dsc in variants(entries):
                     for lenient in (0, 1):
-                        key = (fi, lenient, tuple(t))
-                        if key not in seen:
-                            seen.add(key)
-                            cases.append({"f": fi, "len": lenient, "toks": t, "asg": asg, "ld": dsc})
-                            per_fmt[fi] = per_fmt.get(fi, 0) + 1
+                        if add(fkey, fref, t, dsc, lenient, asg):
+                            per_fmt[fkey] = per_fmt.get(fkey, 0) + 1
     n_small = len(cases)
+    # larger formats: sampled spellings, a third of them built around a group of short options
     n_rand = {"quick": 6000, "thorough": 60000, "search": 3000}[tier]
-    for fi in LARGE:
-        levels = G.SMALL_FORMATS[fi]
-        for asg in assignments(levels, rng, max(2, n_asg // 2)):
-            for toks, desc in spell_all(levels, asg, rng, limit=n_rand // (len(LARGE) * max(2, n_asg // 2))):
-                g = group_flags(toks, levels, desc)
-                for t, dsc in ([(toks, desc)] + ([g] if g else [])):
-                    lenient = rng.randint(0, 1)
-                    key = (fi, lenient, tuple(t))
-                    if key not in seen:
-                        seen.add(key)
-                        cases.append({"f": fi, "len": lenient, "toks": t, "asg": asg, "ld": dsc})
+    large = [(fi, {"f": fi}, G.SMALL_FORMATS[fi]) for fi in LARGE] + [("R%d" % i, {"lv": lv}, lv) for i, lv in enumerate(r_large)]
+    na = max(2, n_asg // 3)
+    for fkey, fref, levels in large:
+        for asg in assignments(levels, rng, na, max_multi=3):
+            for entries in spell_all(levels, asg, rng, limit=max(4, n_rand // (5 * max(2, n_asg // 2))) if isinstance(fkey, int) else max(4, 2 * n_rand // (len(r_large) * na)),
+                                     group_bias=0.35):
+                for t, dsc in variants(entries, rng, max_groups=3):
+                    add(fkey, fref, t, dsc, rng.randint(0, 1), asg)
     if len(cases) > cap:
         head = cases[:n_small]
         if len(head) > cap * 3 // 4:
@@ -440,26 +571,48 @@ def gen(rng, tier, info):
         tail = cases[n_small:]
         cases = head + tail[:cap - len(head)]
     info["exhaustive"] = len(cases) <= cap
-    info["distribution"] = {"small_formats": len(SMALL), "larger_formats": len(LARGE), "assignments_per_format": n_asg,
+
+    def gshape(c):
+        """(letters in the group, how the last member is written) of the longest group of the line"""
+        best = None
+        for it in (c.get("ld") or [None, []])[1]:
+            if it[0] == 3:
+                n = len(it[1]) + (1 if it[2] else 0)
+                kind = "flags-only" if not it[2] else ("last-" + {0: "glued", 1: "separate", 2: "omitted"}[it[2][1][0]])
+                if best is None or n > best[0]:
+                    best = (n, kind)
+        return best
+    gh = {}
+    for c in cases:
+        g = gshape(c)
+        if g:
+            k = "%d-letters %s" % g
+            gh[k] = gh.get(k, 0) + 1
+    info["distribution"] = {"fixed_small_formats": len(SMALL), "fixed_larger_formats": len(LARGE),
+                            "generated_small_formats": len(r_small), "generated_larger_formats": len(r_large),
+                            "assignments_per_fixed_small_format": n_asg,
                             "spellings_small": n_small, "total": len(cases),
+                            "cases_over_generated_formats": sum(1 for c in cases if "lv" in c),
                             "with_line_description (theorem domain: command names first)": sum(1 for c in cases if c.get("ld")),
-                            "grouped_short_flag_descriptions": sum(1 for c in cases if c.get("ld") and any(i[0] == 3 for i in c["ld"][1])),
-                            "per_small_format": {str(k): v for k, v in sorted(per_fmt.items())}}
+                            "grouped_short_option_descriptions": sum(gh.values()),
+                            "groups_by_shape": dict(sorted(gh.items())),
+                            "per_small_format": {str(k): v for k, v in sorted(per_fmt.items(), key=lambda kv: str(kv[0]))}}
     return cases
 
 
 def wire(c):
-    return [G.wire_levels(G.SMALL_FORMATS[c["f"]]), c["len"], [S(t) for t in c["toks"]], [S(x) for x in EXTRA],
+    return [G.wire_levels(G.case_levels(c)), c["len"], [S(t) for t in c["toks"]], [S(x) for x in EXTRA],
             [c["ld"]] if c.get("ld") else []]
 
 
 def describe(c):
-    return "format#%d %s tokens=%r spelling the assignment %r" % (c["f"], "lenient" if c["len"] else "strict", c["toks"], c["asg"])
+    return "format %s %s tokens=%r spelling the assignment %r" % (
+        ("#%d" % c["f"]) if "f" in c else G.fmt_shape(c["lv"]), "lenient" if c["len"] else "strict", c["toks"], c["asg"])
 
 
 def run_impl(c):
     from clikit.args import DefaultArgsParser
-    fmt = G.mk_format(G.SMALL_FORMATS[c["f"]])
+    fmt = G.case_format(c)
     return G.parse_once(DefaultArgsParser(), fmt, c["toks"], bool(c["len"]), EXTRA)
 
 
@@ -479,7 +632,7 @@ def canon_model_w(c, w):
 def oracle(c, o):
     if o[0] != 0:
         return "well-formed-line-rejected:%d" % o[1]
-    exp, oset = expected(G.SMALL_FORMATS[c["f"]], c["asg"])
+    exp, oset = expected(G.case_levels(c), c["asg"])
     got = canon_floats(o)
     exp = canon_floats(exp)
     names = ["arguments(False)", "arguments(True)", "options(False)", "options(True)", "option()/is_option_set", "argument()/is_argument_set"]
@@ -498,5 +651,5 @@ def oracle(c, o):
 
 def nontrivial_key(c, o):
     if c["asg"]["opts"] and c["asg"]["args"]:
-        return [c["f"], c["len"], c["toks"]]
+        return [c.get("f", c.get("lv")), c["len"], c["toks"]]
     return None
